@@ -165,8 +165,8 @@ func judge(content []byte, kl int, stores credx.Mode, prev, next map[string][]by
 				probes = append(probes, rig.ProbeUDP(k))
 			}
 			for _, pr := range probes {
-				if pr.OK != listed || (listed && pr.User != owner) {
-					return verdict{"", fmt.Sprintf("fresh server on the file: key %s accepted=%v as %q, file says listed=%v owner=%q", credx.KeyName(k, kl), pr.OK, pr.User, listed, owner)}
+				if pr.OK != listed || (listed && pr.User != owner) || (listed && !pr.ReplyOK) {
+					return verdict{"", fmt.Sprintf("fresh server on the file: key %s accepted=%v as %q (reply round trip: %v %s), file says listed=%v owner=%q", credx.KeyName(k, kl), pr.OK, pr.User, pr.ReplyOK, pr.ReplyErr, listed, owner)}
 				}
 			}
 		}
